@@ -119,6 +119,11 @@ Vector<std::complex<T>> permanent_laplace_cpp(
 
     // determine the concurrency of the calculation
     unsigned int n_threads = std::thread::hardware_concurrency();
+    if (n_threads == 0)
+    {
+        // the query may return 0 if the value is not computable
+        n_threads = 1;
+    }
     auto concurrency = static_cast<int64_t>(n_threads * 4);
     concurrency = concurrency < idx_max ? concurrency : idx_max;
 
